@@ -136,6 +136,21 @@ func c05WholeOnce(t *testing.T, s *sim.Scn, k int, o *sim.Outcome) (fired bool) 
 		}
 		// (recorded state vs. recorded height is judged once the node has been started again and stopped cleanly:
 		// start-up repairs a height that lags the state by one, see the Manager-level families)
+		// cfg seqdown=1: the sequencer node goes offline (cleanly, after everything it produced has reached the DA
+		// layer) before the full node is started again: the DA layer is then the full node's only source
+		rooted := false // (a full node whose P2P stores are still empty needs a peer to start at all: by design)
+		if st, err := p2pHeaderStore(full); err == nil {
+			if _, err := st.Head(bg); err == nil && p2pDataStoreHeight(full) > 0 {
+				rooted = true
+			}
+		}
+		if s.Cfg["seqdown"] == 1 && agg.up && rooted {
+			time.Sleep(8*rw.dat + 4*rw.bt)
+			if !rw.stop(agg, false, k) {
+				return
+			}
+			o.Count("whole-node-restart:sequencer-offline", 1)
+		}
 		// restart (the operator retries a refused start), then the node must stay up and catch up
 		var target uint64
 		gaveUp := 0
@@ -148,6 +163,24 @@ func c05WholeOnce(t *testing.T, s *sim.Scn, k int, o *sim.Outcome) (fired bool) 
 				return
 			}
 			target = agg.sn.Height()
+			if !agg.up {
+				// the sequencer is offline: what can still be reached is what the DA layer holds
+				led := sim.NewLedger(rw.w, agg.sn)
+				_ = led.CheckSubmissions()
+				onDA := uint64(0)
+				for x := uint64(1); x <= target; x++ {
+					_, hok := led.AccH[x]
+					dok := true
+					if empty, err := led.BlockEmpty(x); err == nil && !empty {
+						_, dok = led.AccD[x]
+					}
+					if !hok || !dok {
+						break
+					}
+					onDA = x
+				}
+				target = onDA
+			}
 			stillUp := true
 			budget := 40*rw.dat + 60*time.Second
 			for el := time.Duration(0); el < budget && stillUp; el += rw.dat {
@@ -256,7 +289,7 @@ func c05WholeRun(t *testing.T, s *sim.Scn) *sim.Outcome {
 func c05WholeGen(r *rand.Rand, tier string) *sim.Scn {
 	s := &sim.Scn{Cfg: map[string]int64{"whole": 1, "bt": []int64{200, 500, 1000}[r.IntN(3)], "dat": []int64{1000, 2000}[r.IntN(2)], "p2pcut": r.Int64N(2),
 		"lead": []int64{0, 1000, 5000, 12000}[r.IntN(4)], "warm": []int64{0, 300, 1500, 4000}[r.IntN(4)], "txs": r.Int64N(3), "linkms": r.Int64N(40),
-		"k0": r.Int64N(3), "kstep": 1 + r.Int64N(4), "eager": r.Int64N(2)}}
+		"k0": r.Int64N(3), "kstep": 1 + r.Int64N(4), "eager": r.Int64N(2), "seqdown": []int64{0, 0, 1}[r.IntN(3)]}}
 	if tier == "thorough" {
 		s.Cfg["kstep"] = 1
 		s.Cfg["k0"] = 0
